@@ -126,17 +126,27 @@ impl Work {
         }
     }
 
-    /// Run one simulated execution. A watchdog timeout is only believed after a second,
-    /// longer attempt also times out (a stalled host must never be reported as a hang).
+    /// Run one simulated execution.
+    ///
+    /// Hangs are decided by CPU time, not wall time: the child limits itself with
+    /// RLIMIT_CPU (10 s + 0.25 s per command) and dies with SIGXCPU if it spins. The
+    /// wall-clock watchdog is only a backstop for a stalled host: on a wall timeout the run
+    /// is retried with 3x and then 9x the budget, and if it still does not finish the result
+    /// is "stalled" — a harness condition (exit 2), never a property violation.
     pub fn run(&mut self, req: &ExecReq) -> ExecOut {
         let budget = self.timeout + Duration::from_millis(250 * req.steps.len() as u64);
-        let first = self.run_once(req, budget);
-        if first.end != "timeout" {
-            return first;
+        let mut out = self.run_once(req, budget);
+        let mut factor = 3;
+        while out.end == "timeout" && factor <= 9 {
+            self.stall_retries += 1;
+            std::thread::sleep(Duration::from_millis(500));
+            out = self.run_once(req, budget * factor);
+            factor *= 3;
         }
-        self.stall_retries += 1;
-        std::thread::sleep(Duration::from_millis(500));
-        self.run_once(req, budget * 3)
+        if out.end == "timeout" {
+            out.end = "stalled".into();
+        }
+        out
     }
 
     fn run_once(&mut self, req: &ExecReq, budget: Duration) -> ExecOut {
